@@ -238,7 +238,10 @@ func checkModel(ctx *pbt.Ctx, m ref.Tx) error {
 		return err
 	}
 	// 2. standard bytes parse back to the model and re-serialise identically
-	d, err := bt.NewTxFromBytes(std)
+	// the byte slices handed to the parser are the caller's own copies; they are
+	// overwritten at the end of the check and the parsed objects looked at once more
+	stdOwn, extOwn := append([]byte{}, std...), append([]byte{}, ext...)
+	d, err := bt.NewTxFromBytes(stdOwn)
 	if err != nil {
 		return fmt.Errorf("NewTxFromBytes rejected the standard encoding %s: %v", head(std), err)
 	}
@@ -252,7 +255,7 @@ func checkModel(ctx *pbt.Ctx, m ref.Tx) error {
 		return err
 	}
 	// 3. extended bytes preserve the previous output data too
-	e, err := bt.NewTxFromBytes(ext)
+	e, err := bt.NewTxFromBytes(extOwn)
 	if err != nil {
 		return fmt.Errorf("NewTxFromBytes rejected the extended encoding %s: %v", head(ext), err)
 	}
@@ -305,6 +308,25 @@ func checkModel(ctx *pbt.Ctx, m ref.Tx) error {
 		if got := x.tx.TxID(); got != hex.EncodeToString(want) {
 			return fmt.Errorf("TxID() of the %s tx = %s, reversed SHA-256d of the standard encoding is %x", x.name, got, want)
 		}
+	}
+	// 7. the caller reuses its input buffers (zeroed / inverted, by the parity of the length)
+	for _, b := range [][]byte{stdOwn, extOwn} {
+		for i := range b {
+			if len(b)%2 == 0 {
+				b[i] = 0
+			} else {
+				b[i] = ^b[i]
+			}
+		}
+	}
+	if err := eqBytes("Bytes() of the tx parsed from the standard encoding, after the caller overwrote the slice it had passed in", d.Bytes(), std); err != nil {
+		return err
+	}
+	if err := eqBytes("ExtendedBytes() of the tx parsed from the extended encoding, after the caller overwrote the slice it had passed in", e.ExtendedBytes(), ext); err != nil {
+		return err
+	}
+	if got := e.TxID(); got != hex.EncodeToString(want) {
+		return fmt.Errorf("TxID() of the tx parsed from the extended encoding = %s after the caller overwrote the slice it had passed in; it was parsed from a transaction with id %x", got, want)
 	}
 	return nil
 }
